@@ -274,6 +274,17 @@ func runC03(tier string, seed uint64) int {
 			os.RemoveAll(root)
 			return 2
 		}
+		// the project whose weather file starts late: twice more with result folders of its own
+		for k, sc := range scs {
+			if sc.WeatherStartsLate {
+				for _, suffix := range []string{"x", "y"} {
+					l := lines[k]
+					l.ID = fmt.Sprintf("L%02d%s", k, suffix)
+					lines = append(lines, l)
+				}
+				agg.add("projects_whose_weather_file_starts_after_the_simulation_start", 1)
+			}
+		}
 		// the same project again with its own result folder, and exact duplicates of two lines (same result folder)
 		for k := 0; k < 2; k++ {
 			l := lines[k]
@@ -341,6 +352,18 @@ func runC03(tier string, seed uint64) int {
 			l.Tokens = append(append([]string{}, l.Tokens...), variantTokens(scs[k], vr, v)...)
 			l.Variant = true
 			lines = append(lines, l)
+		}
+		// ... and three times with the complete series of its sister weather folder (same period, so the same table sizes)
+		for k, sc := range scs {
+			if sc.WeatherStartsLate {
+				for w := 0; w < 3; w++ {
+					l := lines[k]
+					l.ID = fmt.Sprintf("L%02dw%d", k, w)
+					l.Tokens = append(append([]string{}, l.Tokens...), "WeatherFolder="+sc.SisterWeatherFolder)
+					l.Variant = true
+					lines = append(lines, l)
+				}
+			}
 		}
 		refs := soloReferences(bin, root, lines, scratch, 2, func(sig, msg string) { agg.violate("C03", sig, msg) })
 		// a variant whose settings the project cannot run with (e.g. a transfer function without texture fractions) is dropped
